@@ -54,6 +54,11 @@ def chk_1d(c):
         # history independence: a weighted assembly must not influence later calls
         Mw3 = assemble.bsp_mixed_deriv_biform_1d(K, 0, 0, nqp=p + 2, weightfunc=lambda x: 1 + 2 * x - x * x).toarray()
         assert np.array_equal(Mw2, Mw3), 'repeating a weighted assembly gives a different matrix'
+    # the convenience wrappers hand their weight function on (linear weight: the default rule is still exact)
+    if p >= 1:
+        lin = [oracle.fr(1), oracle.fr(2)]
+        _close(assemble.bsp_mass_1d(K, weightfunc=lambda x: 1 + 2 * x).toarray(), oracle.biform_1d(c['kv'], p, c['kv'], p, 0, 0, weight=lin), 'bsp_mass_1d(weightfunc=1+2x)')
+        _close(assemble.bsp_stiffness_1d(K, weightfunc=lambda x: 1 + 2 * x).toarray(), oracle.biform_1d(c['kv'], p, c['kv'], p, 1, 1, weight=lin), 'bsp_stiffness_1d(weightfunc=1+2x)')
     M_again = assemble.bsp_mass_1d(K).toarray()
     assert np.array_equal(M, M_again), 'mass matrix changed after a weighted assembly on the same knot vector'
     Mq = assemble.bsp_mixed_deriv_biform_1d(K, 0, 0, nqp=p + 2).toarray()
@@ -80,6 +85,12 @@ def chk_asym(c):
         A = assemble.bsp_mixed_deriv_biform_1d_asym(K1, K2, 0, 0, quadgrid=mesh[k0:k1 + 1])
         assert A.shape == (K2.numdofs, K1.numdofs), 'quadrature grid over the spans %d..%d: matrix has shape %r, documented %r' % (k0, k1, A.shape, (K2.numdofs, K1.numdofs))
         _close(A.toarray(), oracle.biform_1d(c['kv1'], c['p1'], c['kv2'], c['p2'], 0, 0, spans=(k0, k1)), 'mass over the mesh spans %d..%d (custom quadrature grid)' % (k0, k1))
+        # ... and the same through the wrappers
+        _close(assemble.bsp_mass_1d_asym(K1, K2, quadgrid=mesh[k0:k1 + 1]).toarray(), oracle.biform_1d(c['kv1'], c['p1'], c['kv2'], c['p2'], 0, 0, spans=(k0, k1)),
+               'bsp_mass_1d_asym(quadgrid = mesh spans %d..%d)' % (k0, k1))
+        if min(c['p1'], c['p2']) >= 1:
+            _close(assemble.bsp_stiffness_1d_asym(K1, K2, quadgrid=mesh[k0:k1 + 1]).toarray(), oracle.biform_1d(c['kv1'], c['p1'], c['kv2'], c['p2'], 1, 1, spans=(k0, k1)),
+                   'bsp_stiffness_1d_asym(quadgrid = mesh spans %d..%d)' % (k0, k1))
     fine = np.sort(np.concatenate((mesh, (mesh[:-1] + mesh[1:]) / 2)))
     _close(assemble.bsp_mixed_deriv_biform_1d_asym(K1, K2, 0, 0, quadgrid=fine).toarray(), oracle.biform_1d(c['kv1'], c['p1'], c['kv2'], c['p2'], 0, 0),
            'mass with a refined quadrature grid')
@@ -209,7 +220,45 @@ def chk_fast(c):
         assert np.abs(A - A.T).max() <= 1e-12 * max(1.0, np.abs(A).max()), '%s_fast is not symmetric' % name
 
 
-CHECKS = {'fast': chk_fast, '1d': chk_1d, 'asym': chk_asym, 'tp': chk_tp, 'geo': chk_geo, 'detinv': chk_detinv}
+_FAST_HISTORY_SCRIPT = r"""
+import sys, json
+import numpy as np
+from pyiga import assemble, geometry, bspline
+gn, p1, p2, n, name, reps = sys.argv[1], int(sys.argv[2]), int(sys.argv[3]), int(sys.argv[4]), sys.argv[5], int(sys.argv[6])
+geo = getattr(geometry, gn)()
+kvs = (bspline.make_knots(p1, 0.0, 1.0, n), bspline.make_knots(p2, 0.0, 1.0, n))
+fast, ref = (assemble.mass_fast, assemble.mass) if name == 'mass' else (assemble.stiffness_fast, assemble.stiffness)
+B = ref(kvs, geo).toarray()
+bad = []
+for r in range(reps):
+    A = fast(kvs, geo, tol=1e-10, verbose=0).toarray()
+    e = float(np.abs(A - B).max())
+    if not e <= 1e4 * 1e-10 * max(1.0, float(np.abs(B).max())):
+        bad.append((r, e))
+print(json.dumps(bad))
+"""
+
+
+def chk_fast_history(c):
+    """the fast assembler with its DEFAULT stopping parameters, called repeatedly with the same arguments in one fresh interpreter: every call
+    returns the matrix within a small multiple of the tolerance (the cross approximation draws replacement rows with the C library's
+    rand(), so a call depends on the calls before it; a fresh process makes the history reproducible)"""
+    import json
+    import os
+    import subprocess
+    import sys
+    import pyiga
+    root = os.path.dirname(os.path.dirname(os.path.abspath(pyiga.__file__)))
+    env = dict(os.environ, PYTHONPATH=root + os.pathsep + os.environ.get('PYTHONPATH', ''))
+    out = subprocess.run([sys.executable, '-c', _FAST_HISTORY_SCRIPT, c['geo'], str(c['p'][0]), str(c['p'][1]), str(c['n']), c['form'], str(c['reps'])],
+                         env=env, capture_output=True, text=True, timeout=600)
+    assert out.returncode == 0, 'fresh interpreter failed: %s' % out.stderr[-400:]
+    bad = json.loads(out.stdout.strip().splitlines()[-1])
+    assert not bad, '%s_fast(%s, p=%r, %d spans per direction, tol=1e-10, default skipcount/tolcount): %d of %d identical calls in one fresh process are off, first at call %d by %.3g' % (
+        c['form'], c['geo'], tuple(c['p']), c['n'], len(bad), c['reps'], bad[0][0], bad[0][1])
+
+
+CHECKS = {'fast': chk_fast, 'fast_history': chk_fast_history, '1d': chk_1d, 'asym': chk_asym, 'tp': chk_tp, 'geo': chk_geo, 'detinv': chk_detinv}
 
 
 def generate(tier, rng):
@@ -220,6 +269,10 @@ def generate(tier, rng):
     for sp in ([(1, 3), (2, 3), (3, 3)], [(2, 3), (1, 3), (3, 3)], [(3, 3), (2, 3), (1, 3)], [(2, 3), (2, 3), (2, 3)]) if quick else \
             ([(a, 3), (b, 3), (c_, 3)] for a in (1, 2, 3) for b in (1, 2, 3) for c_ in (1, 2, 3)):
         yield 'fast', {'space': sp}
+    for geo_, p_, n_, form in (('unit_square', (1, 2), 2, 'stiffness'), ('unit_square', (1, 1), 2, 'stiffness'), ('unit_square', (2, 2), 3, 'stiffness'),
+                               ('bspline_quarter_annulus', (2, 2), 4, 'stiffness'), ('unit_square', (1, 1), 2, 'mass'), ('bspline_quarter_annulus', (3, 3), 6, 'stiffness'),
+                               ('quarter_annulus', (2, 3), 5, 'mass')):
+        yield 'fast_history', {'geo': geo_, 'p': list(p_), 'n': n_, 'form': form, 'reps': 60}
     brs = kvgen.BREAKSETS[:6]
     kvs = list(kvgen.knotvec_arrays(pmax=3 if quick else 5, breaksets=brs))
     for p, kv in kvs:
